@@ -316,12 +316,111 @@ func (s *Sim) runC03Scenario(sc *Scenario, r *Rng) {
 	}
 	s.Stats.Count("scenarios")
 	s.Stats.Counts["pairs_enumerated"] += pairs
+	s.storeFaultPass(sc, dry, route)
 	// one drawn fault delivered for real through IBC core: error ack committed, nothing else changed, refund on ack relay
 	if len(idxs) > 0 {
 		i := idxs[r.Intn(len(idxs))]
 		mode := []int{faultBefore, faultAfter}[r.Intn(2)]
 		s.realFaultDelivery(sc, map[int]int{i: mode}, occurrence(dry.Calls, i), route)
 	}
+}
+
+func isBridgeSite(site string) bool {
+	switch site {
+	case "cctp.DepositForBurn", "cctp.DepositForBurnWithCaller", "hyperlane.RemoteTransfer", "internal.Send":
+		return true
+	}
+	return false
+}
+
+// storeFaultPass: the orbiter's own store as a fault seam (a failing disk seen through the error results of the
+// KVStore interface). Every store call of the scenario's delivery fails once, in every mode. A failure before the
+// bridge request has completed must end in an error acknowledgement with no effect. After the bridge request only the
+// statistics are left, which the dispatcher updates on a best-effort basis (a failure there is logged): the
+// acknowledgement may stay a success, but then the fund movements must be exactly those of the fault-free delivery -
+// a failing statistics write never undoes, repeats or redirects a movement.
+func (s *Sim) storeFaultPass(sc *Scenario, dry *bExec, route string) {
+	s.ModeB.Plan.Store = true
+	defer func() { s.ModeB.Plan.Store = false }()
+	base := s.execScenario(sc, nil)
+	if base.V.Panic != "" || !base.V.Success || strings.Join(base.V.Deltas, "|") != strings.Join(dry.V.Deltas, "|") {
+		panic(harnessErr("recording store calls changed the fault-free delivery: %v / %v", base.V.Deltas, dry.V.Deltas))
+	}
+	nStore := 0
+	ptLen := len(s.classify(s.scenarioPacket(sc)).Payload.Passthrough)
+	for i, c := range base.Calls {
+		if !strings.HasPrefix(c.Site, "store.") {
+			continue
+		}
+		nStore++
+		modes := []int{faultBefore, faultPanic}
+		if strings.HasPrefix(c.Site, "store.Set") || strings.HasPrefix(c.Site, "store.Delete") {
+			modes = []int{faultBefore, faultAfter, faultPanic}
+		}
+		for _, mode := range modes {
+			ex := s.execScenario(sc, map[int]int{i: mode})
+			s.Stats.Count("injected_executions")
+			s.Stats.Count("rule:C03.store-fault")
+			if len(ex.Fired) == 0 {
+				panic(harnessErr("planned store fault %s did not fire (calls %v)", occurrence(base.Calls, i), siteList(ex.Calls)))
+			}
+			if mode == faultPanic {
+				s.Stats.Fault("injected_panic:store." + storeOp(c.Site))
+			} else {
+				s.Stats.Fault("injected_error:store." + storeOp(c.Site))
+			}
+			if ex.V.Panic != "" {
+				if !strings.HasPrefix(ex.V.Panic, "injected downstream panic") {
+					s.violate("C14", "U1-no-panic", "modeb: "+oneLine(ex.V.Panic), ex.V.Panic)
+				}
+				continue
+			}
+			first := ex.Fired[0]
+			afterBridge := false
+			for j := 0; j < first; j++ {
+				if isBridgeSite(ex.Calls[j].Site) {
+					afterBridge = true
+				}
+			}
+			mname := map[int]string{faultBefore: "before", faultAfter: "after", faultPanic: "panic"}[mode]
+			s.Stats.States[fmt.Sprintf("%s|%s|%s|store", route, occurrence(ex.Calls, first), mname)] = true
+			// The one read the adapter tolerates by design: when the parameters cannot be read the passthrough limit
+			// is assumed to be zero (the strictest value) and the failure is logged. A delivery without passthrough
+			// payload may therefore still succeed - identically to the fault-free one - and one with a passthrough
+			// payload must be refused. The key prefix is the code's own constant, not a copy of it.
+			paramsRead := strings.HasPrefix(ex.Calls[first].Site, "store.Get@") && ex.Calls[first].Site == storeSite("Get", core.AdapterParamsPrefix.Bytes())
+			switch {
+			case ex.V.Success && paramsRead && !afterBridge:
+				s.Stats.Count("probe:parameter_read_failed_limit_assumed_zero")
+				if ptLen > 0 {
+					s.violate("C18", "limit-enforced", "parameters-unreadable-passthrough-accepted", fmt.Sprintf("scenario %s: the parameters could not be read (%s) and a passthrough payload of %d bytes was accepted", sc.Desc, mname, ptLen))
+				} else if strings.Join(ex.V.Deltas, "|") != strings.Join(dry.V.Deltas, "|") {
+					s.violate("C03", "success-only-after-all-movements", "parameter-read-failure-changed-fund-movements route="+route, fmt.Sprintf("scenario %s: %v instead of %v", sc.Desc, ex.V.Deltas, dry.V.Deltas))
+				}
+			case ex.V.Success && !afterBridge:
+				s.violate("C03", "failure-implies-error-ack", fmt.Sprintf("swallowed-store-failure site=%s mode=%s route=%s", occurrence(ex.Calls, first), mname, route),
+					fmt.Sprintf("scenario %s: store call %s failed (%s) before the bridge request but the acknowledgement is a success; effects kept: %v", sc.Desc, occurrence(ex.Calls, first), mname, ex.V.Deltas))
+				sc.Fail = map[int]int{i: mode}
+			case ex.V.Success:
+				s.Stats.Count("probe:statistics_write_failed_transfer_kept")
+				if strings.Join(ex.V.Deltas, "|") != strings.Join(dry.V.Deltas, "|") {
+					s.violate("C03", "success-only-after-all-movements", fmt.Sprintf("statistics-failure-changed-fund-movements site=%s route=%s", occurrence(ex.Calls, first), route),
+						fmt.Sprintf("scenario %s: store call %s failed (%s) after the bridge request, success acknowledged, but the ledger effects %v differ from the fault-free %v", sc.Desc, occurrence(ex.Calls, first), mname, ex.V.Deltas, dry.V.Deltas))
+				}
+			case len(ex.V.Deltas) != 0:
+				s.violate("C03", "U2-error-ack-no-effect", "effects-after-error-ack", fmt.Sprintf("scenario %s (store fault %s): %v", sc.Desc, occurrence(ex.Calls, first), ex.V.Deltas))
+			}
+		}
+	}
+	s.Stats.Counts["store_calls_enumerated"] += nStore
+}
+
+func storeOp(site string) string {
+	x := strings.TrimPrefix(site, "store.")
+	if i := strings.Index(x, "@"); i >= 0 {
+		return x[:i]
+	}
+	return x
 }
 
 // realFaultDelivery sends the scenario's transfer with a real MsgTransfer and relays it through
